@@ -13,6 +13,7 @@ R22.4  both drivers (in-memory / build-dir) iterate the check registry calling a
 R22.5  the <FileInfo check="KEY"> keys written by the analysis are the keys the build-dir driver
        dispatches on
 """
+import re
 from .common.facts import walk, strip, strip_all, call_args, AnalysisBroken
 from .common import xmlmodel
 
@@ -39,6 +40,7 @@ def is_repo(g):
 def run(ctx):
     F = ctx.facts
     r22_7(ctx)
+    r22_8(ctx)
     ctx.rule('R22.1', 'element names written == element names dispatched by the reader, per summary kind')
     ctx.rule('R22.2', 'per element, attribute names read == attribute names written')
     ctx.rule('R22.3', 'every data member of a serialized summary struct is read by the writer and assigned by the reader')
@@ -344,3 +346,44 @@ def r22_7(ctx):
                                                          'negative values come back as huge positive ones' if sign_loss else 'large values are truncated')),
                    '%s:%s' % (f['file'], x['l']))
     ctx.floor('R22.7 numeric members restored by summary readers', n, 8)
+
+
+def r22_8(ctx):
+    """R22.8  join keys keep one spelling: the whole-program analysis joins an unsafe usage, a nested call and a function call by comparing the id strings
+    (my-id / call-id) of records that were written by different writer functions.  Every writer of a `my-id` or `call-id` attribute therefore applies the same
+    encoding to the operand (today: none).  ErrorLogger::toxml is not invertible by the reader (bytes outside 0x20..0x7f become 'x', tinyxml2 does not undo that),
+    so escaping the id on one side only makes ids that went through a file differ from their partners."""
+    F = ctx.facts
+    ctx.rule('R22.8', 'all writers of the my-id / call-id join keys encode the id the same way')
+    W = xmlmodel.Writer(F, is_writer=lambda fn: True, max_depth=0)
+    enc = {}    # (function, attribute) -> descriptor
+    for f in F.all_fns():
+        if f['file'] != 'lib/ctu.cpp':
+            continue
+        parts = W.parts_of_function(f)
+        if not any(p[0] == 'lit' and '="' in p[1] for p in parts):
+            # attribute names come from constants: look at the raw sequence lit(name) lit(=") dyn
+            pass
+        # walk the part sequence: a literal ending in `my-id="` / `call-id="` (possibly split over several literal parts) followed by a dynamic part
+        text = ''
+        for p in parts:
+            if p[0] == 'lit':
+                text += p[1]
+                continue
+            m = re.search(r'(my-id|call-id)="$', text)
+            if m:
+                enc[(f['name'], m.group(1))] = (p[1], p[3].get('l'))
+            text += '\\x00'
+    ctx.floor('R22.8 writers of join-key attributes', len(enc), 3)
+    kinds = {}
+    for (fn, attr), (desc, line) in enc.items():
+        k = 'escaped' if desc.startswith('call:ErrorLogger::toxml') else 'raw' if desc.startswith(('var:', 'other', 'call:')) else desc
+        kinds.setdefault(k, []).append((fn, attr, line))
+    major = max(kinds, key=lambda k: len(kinds[k]))
+    for k, sites in kinds.items():
+        for fn, attr, line in sites:
+            ok = k == major
+            ctx.ob('R22.8', 'join-key:%s:%s' % (fn, attr), ok, ('%s writes %s %s like the other writers' % (fn, attr, k)) if ok else
+                   ('%s writes the join key %s %s while the other writers write it %s (%s): after a round trip through a file an id that contains a character the escaping '
+                    'changes no longer equals its partner, and the cross-file finding is lost' % (fn, attr, k, major, ', '.join(sorted({s_[0] for s_ in kinds[major]})))),
+                   'lib/ctu.cpp:%s' % line)
